@@ -10,7 +10,7 @@ COQ_FILES = ["Convert/Bytes.v", "Convert/Generated_PurlTypes.v", "Convert/Purl.v
              "Convert/Sbom.v", "Convert/SbomRoundtrip.v", "Convert/Cases15.v", "Convert/BytesProofs.v", "Convert/Proofs.v",
              "Convert/SbomRoundtripProofs.v", "Convert/Props_C15.v"]
 THEOREMS = ["spdx_import_exact", "cdx_import_exact", "sbom_roundtrip_spdx_on_D", "sbom_roundtrip_cdx_on_D",
-            "emitted_inventories_in_D", "sbom_roundtrip_refuted", "spdx_tagvalue_export_unreadable"]
+            "emitted_inventories_in_D", "spdx_tagvalue_export_unreadable"]
 
 META = {
     "technique": "Coq proofs about executable models of ToSPDX23/ToCDX (export) and the sbom/spdx, sbom/cdx extractors (import) "
@@ -20,9 +20,9 @@ META = {
                   "document are exactly the exported purls that the library's own FromString accepts, normalised "
                   "(spdx_import_exact, cdx_import_exact); hence on the domain D (every purl type accepted by validType and "
                   "re-parsable by packageurl-go) the multiset read back equals the normalised exported multiset "
-                  "(sbom_roundtrip_spdx_on_D, sbom_roundtrip_cdx_on_D); D contains every inventory over emitted purl types other "
-                  "than snap (emitted_inventories_in_D, via C14's regenerated tables); the full statement is refuted by the snap "
-                  "witness (sbom_roundtrip_refuted); no SPDX tag-value export is readable at all "
+                  "(sbom_roundtrip_spdx_on_D, sbom_roundtrip_cdx_on_D); D contains every inventory over emitted purl types whose "
+                  "purls packageurl-go can parse back (emitted_inventories_in_D, via C14's regenerated tables, snap included since "
+                  "the validType fix); no SPDX tag-value export is readable at all "
                   "(spdx_tagvalue_export_unreadable). Third-party code enters only as premises: packageurl-go law on law_domain, "
                   "non-empty printed purl, codec view preservation (validated per case and format).",
     "level_note": "Trusted: Coq kernel + vm_compute; harness harness/cmd/sbom; the JSON/YAML/XML codecs (tools-golang, "
@@ -89,6 +89,20 @@ def run(ctx):
     # known findings
     d = os.path.join(vlib.BUILD, "cases")
     os.makedirs(d, exist_ok=True)
+    for e in c14.fixed_findings(ctx):
+        p = os.path.join(d, "C15_witness_%s.json" % e["id"])
+        json.dump(e["witness"], open(p, "w"))
+        rc, out = vlib.sh([binp, "-witness", p], timeout=300)
+        try:
+            res = json.loads(out.strip().splitlines()[-1])
+        except Exception:
+            res = {"still_fails": None, "error": out[-800:]}
+        if res.get("still_fails") is False:
+            ctx.coverage.setdefault("regression_witnesses_passed", []).append(e["id"])
+        else:
+            ctx.violation({"kind": "spec-failure", "clause": "regression: fixed finding %s is back" % e["id"], "fix_commit": e.get("fix_commit"),
+                           "case": e["witness"].get("case"), "witness": e["witness"], "result": res,
+                           "explanation": "the witness of a defect recorded as fixed fails again on the implementation"})
     for e in ctx.known_findings():
         p = os.path.join(d, "C15_witness_%s.json" % e["id"])
         json.dump(e["witness"], open(p, "w"))
@@ -115,6 +129,7 @@ def run(ctx):
     summary = json.load(open(summ))
     ctx.log("harness: %d inventories, %d write+scan runs, failures %s, codec mismatches %d" % (
         len(cases), summary["scans"], summary["write_or_scan_failures"], summary["codec_mismatches"]))
+    c14.retranslate_guard(ctx, "theories/Convert/Cases15.vo")
     outs = c14.shard_and_run(ctx, vfile, "C15", 10, tail15)
     corr_bad, spec_bad, counts = [], [], [0, 0, 0, 0]
     for k, o in enumerate(outs):
